@@ -73,6 +73,66 @@ class Result:
         self.violations.append((clause, shape, str(msg)[:600]))
 
 
+class Periodic:
+    """Chooser for ONE long deterministic execution (configurations with a "long" key): workload points (free=True, where
+    answer 0 means "stop") get 1 + pattern[i mod len] mod (n-1), environment points get pattern[i mod len] mod n.  The
+    execution has no branching left, so it is the whole (singleton) space of its configuration."""
+    record = False
+    labels = None
+
+    def __init__(self, pattern):
+        self.pattern = list(pattern)
+        self.i = 0
+        self.choices = []
+        self.arity = []
+
+    def choose(self, n, label=None, free=False):
+        v = self.pattern[self.i % len(self.pattern)]
+        self.i += 1
+        if free:
+            return 1 + v % (n - 1) if n > 1 else 0
+        return v % n
+
+    def note(self, text):
+        pass
+
+
+def with_long(execute):
+    """configurations carrying long={"pattern": [...], "set": {cfg overrides}} are run once with a Periodic chooser"""
+    def run(ch, cfg):
+        lg = cfg.get("long")
+        if lg:
+            c2 = dict(cfg)
+            c2.pop("long")
+            c2.update(lg.get("set", {}))
+            return execute(Periodic(lg["pattern"]), c2)
+        return execute(ch, cfg)
+    return run
+
+
+LONG_PATTERNS = [[3, 17, 8, 29, 11, 23, 5, 14, 26, 0, 19], [2, 27, 13, 8, 22, 18, 1], [0, 10, 1, 20, 2, 0, 30, 0, 3, 12, 0, 21, 5]]
+
+
+def add_long(cfgs, n, key=None, patterns=None, skip=lambda c: False, extra=None):
+    """append one long fixed workload (n arrivals) per pattern for every configuration (or the first one per `key`)"""
+    out = []
+    seen = set()
+    for c in cfgs:
+        if skip(c) or c.get("long"):
+            continue
+        if key is not None:
+            k = key(c)
+            if k in seen:
+                continue
+            seen.add(k)
+        for p in (patterns or LONG_PATTERNS):
+            st = {"N": n(c) if callable(n) else n}
+            st.update(extra or {})
+            out.append(dict(c, long={"pattern": p, "set": st}))
+    cfgs.extend(out)
+    return len(out)
+
+
 DISTINCT_CAP = 2_000_000
 
 
@@ -253,6 +313,9 @@ def explore_all(execute, cfgs, budget=None, workers=None, split_target=4096, sel
     sys.stdout = open(os.devnull, "w")
     try:
         for idx, cfg in enumerate(cfgs):
+            if cfg.get("long"):
+                items.append((idx, []))     # a single long execution: straight to the pool
+                continue
             # determinism self-test on the first executions of this configuration
             if tested < selftest:
                 ch1, r1 = run_one(execute, cfg, [], budget)
